@@ -412,6 +412,43 @@ def r13_shared_position_getters(ctx):
         yield o
 
 
+class _ItChild(object):
+    _sa_model = True
+
+    def __init__(self, name, typ, pos, below):
+        self.name = name
+        self.type = typ
+        self.below = tuple(below)
+        self.x12_map_node = A.Model('mapnode', pos=pos, id=name)
+        self.id = name
+
+    def iterate_segments(self):
+        return self.below
+
+    def __hash__(self):
+        return hash(('itchild', self.name))
+
+
+def r14_flattening_keeps_source_order(ctx):
+    """the segments of a yielded tree, concatenated, are the source segments in source order: X12LoopDataNode.
+    iterate_segments decided by constant propagation on a node whose live children do NOT rise in map position (an
+    interchange tree: GS, sets, GE, GS, sets, GE) and include a deleted one - it yields what each live child yields, child
+    after child in the order the children are held, nothing for the deleted one."""
+    from ..absint import run_generator, helper_oracles, NotClosedTest
+    fn = ctx.func('x12context', 'X12LoopDataNode.iterate_segments')
+    kids = (_ItChild('ISA', 'seg', 10, ('isa',)), _ItChild('GS1', 'seg', 20, ('gs1',)), _ItChild('ST1', 'loop', 30, ('st1', 'bht1', 'se1')),
+            _ItChild('GE1', 'seg', 40, ('ge1',)), _ItChild('gone', None, 20, ('gone',)), _ItChild('GS2', 'seg', 20, ('gs2',)),
+            _ItChild('ST2', 'loop', 30, ('st2', 'se2')), _ItChild('GE2', 'seg', 40, ('ge2',)), _ItChild('IEA', 'seg', 50, ('iea',)))
+    try:
+        got = run_generator(ctx.cfg(fn), fn, [None], helper_oracles(ctx, 'x12context', all_methods_of='X12LoopDataNode'), env={'self.children': kids, 'self.type': 'loop'})
+    except (NotClosedTest, A.NotClosed) as e:
+        raise AnalysisError('X12LoopDataNode.iterate_segments cannot be decided: %s' % e)
+    want = tuple(x for k in kids if k.type is not None for x in k.below)
+    ok = tuple(got) == want
+    yield Ob('x12context:X12LoopDataNode.iterate_segments yields the children\'s segments in the order the children are held', ok, ctx.floc(fn),
+             '' if ok else 'children at map positions %s yield %s, expected %s' % ([k.x12_map_node.pos for k in kids if k.type is not None], list(got), list(want)))
+
+
 RULES = [
     Rule('C09.R11', 'shared with C02.R14: segment_if.is_match decided by constant propagation', r11_shared_matching, floor=1),
     Rule('C09.R1', 'the tree under construction is yielded on every path to the end of the generator', r1_flush, floor=1),
@@ -425,5 +462,6 @@ RULES = [
     Rule('C09.R8', 'shared with C10.R3: the tombstone sweep keeps the live children in source order', r8_shared_children_order, floor=10),
     Rule('C09.R12', 'shared with C02.R10: a wrapper loop matches iff any of its child loops does (constant propagation)', r12_shared_wrapper_loops, floor=1),
     Rule('C09.R13', 'shared with C05.R19: the reader getters behind seg_count / cur_line_number / ls_id answer their own counter', r13_shared_position_getters, floor=6),
+    Rule('C09.R14', 'iterate_segments of a tree yields the segments child after child in held (source) order (constant propagation)', r14_flattening_keeps_source_order, floor=1),
     Rule('C09.R7', 'both drivers restart every functional group at the GS node of the transaction map (constant propagation through one iteration)', r7_reanchor_at_gs, floor=2),
 ]
